@@ -337,6 +337,28 @@ Proof.
   intros pre c post Hex Hpos. eapply distribute_front_to_back; eauto.
 Qed.
 
+(** The counting wrapper forwards [set_init] unchanged and its count is the size of the last
+    transfer for EVERY n, 0 included (a stale count after a transfer of 0 bytes would make the
+    read loops of read_n / recv_n miss the end of the stream: seeded change C14-c). *)
+Definition counting_wrapper_counts_every_transfer : Prop :=
+  (forall r n, rn_buf (readn_set_init r n) = mut_set_init (rn_buf r) n
+               /\ rn_last (readn_set_init r n) = n)
+  /\ (forall r n, match readn_mslice_set_init r n with
+                  | Some r' => mslice_set_init (rn_buf r) n = Some (rn_buf r') /\ rn_last r' = n
+                  | None => mslice_set_init (rn_buf r) n = None
+                  end)
+  (* in particular after [k > 0] then [0] the count is 0 *)
+  /\ (forall r k, rn_last (readn_set_init (readn_set_init r k) 0) = 0).
+
+Lemma counting_wrapper_counts_every_transfer_holds : counting_wrapper_counts_every_transfer.
+Proof.
+  split; [|split].
+  - intros r n. split; reflexivity.
+  - intros r n. unfold readn_mslice_set_init.
+    destruct (mslice_set_init (rn_buf r) n) as [bs|]; [split; reflexivity|reflexivity].
+  - intros r k. reflexivity.
+Qed.
+
 Definition limit_never_exceeded : Prop :=
   forall bs lim,
     sum_lens (lim_slice_iovecs {| inner := bs; limit := lim |}) <= lim
